@@ -498,6 +498,7 @@ impl ResidencyDb {
         let temp_path = self.path.with_extension("tmp");
         let file = File::create(&temp_path)
             .map_err(|e| StorageError::Archive(format!("failed to create residency temp: {e}")))?;
+        #[cfg(feature = "verif-hooks")] crate::verif_hooks::crash_point("residency.save.after_create", Some(&temp_path));
         let mut writer = BufWriter::new(&file);
 
         for (bucket_id, pages) in self.buckets.iter().enumerate() {
@@ -511,22 +512,27 @@ impl ResidencyDb {
             writer
                 .write_all(&(pages.len() as u32).to_le_bytes())
                 .map_err(|e| StorageError::Archive(format!("write error: {e}")))?;
+            #[cfg(feature = "verif-hooks")] crate::verif_hooks::crash_point("residency.save.after_bucket_header", Some(&temp_path));
             // Write pages
             for page in pages {
                 writer
                     .write_all(&page.to_bytes())
                     .map_err(|e| StorageError::Archive(format!("write error: {e}")))?;
+                #[cfg(feature = "verif-hooks")] crate::verif_hooks::crash_point("residency.save.after_page", Some(&temp_path));
             }
         }
 
         writer
             .flush()
             .map_err(|e| StorageError::Archive(format!("flush error: {e}")))?;
+        #[cfg(feature = "verif-hooks")] crate::verif_hooks::crash_point("residency.save.after_flush", Some(&temp_path));
         file.sync_all()
             .map_err(|e| StorageError::Archive(format!("fsync error: {e}")))?;
+        #[cfg(feature = "verif-hooks")] crate::verif_hooks::crash_point("residency.save.after_sync", None);
 
         std::fs::rename(&temp_path, &self.path)
             .map_err(|e| StorageError::Archive(format!("rename error: {e}")))?;
+        #[cfg(feature = "verif-hooks")] crate::verif_hooks::crash_point("residency.save.after_rename", None);
 
         self.dirty = false;
         Ok(())
